@@ -3152,6 +3152,10 @@ impl<'a> Visitor<'a, '_, Error> for JSONValidator<'a> {
 
     walk_type_groupname_entry(self, entry)?;
     self.state.type_group_name_entry = None;
+    // Key-domain candidates are only relayed from a member-key visit to its
+    // group entry. A keyless entry such as `1*2 tstr` inside a map has no
+    // consumer for them: do not leak them into the next group entry.
+    self.map_entry_candidates = None;
     // The occurrence belongs to this entry only: it must not make the next
     // group entry optional (`{ ? g, k: int }` requires k).
     if entry.occur.is_some() {
